@@ -63,12 +63,44 @@ def _decide(c: ast.AST, env: Dict[str, Tuple]) -> Optional[bool]:
         r = c.comparators[0]
         val = env[c.left.id]
         if isinstance(r, ast.Constant) and r.value is None and isinstance(c.ops[0], (ast.Is, ast.IsNot, ast.Eq, ast.NotEq)):
+            if val[0] == "const" and val[1] is None:
+                return None
             is_none = val[0] == "none"
             return is_none if isinstance(c.ops[0], (ast.Is, ast.Eq)) else not is_none
         if isinstance(r, ast.Constant) and val[0] == "const" and isinstance(c.ops[0], (ast.Eq, ast.NotEq)) and type(r.value) is type(val[1]):
             eq = r.value == val[1]
             return eq if isinstance(c.ops[0], ast.Eq) else not eq
     return None
+
+
+def _dereferenced(node: ast.AST) -> set:
+    """names that the evaluation of node dereferences (attribute access, call, subscript, arithmetic, ordering comparison):
+    if evaluation went on without an exception, they were not None"""
+    out = set()
+    for n in ast.walk(node):
+        if isinstance(n, (ast.FunctionDef, ast.Lambda, ast.ClassDef)):
+            continue
+        if isinstance(n, ast.Attribute) and isinstance(n.value, ast.Name):
+            out.add(n.value.id)
+        elif isinstance(n, ast.Subscript) and isinstance(n.value, ast.Name) and isinstance(n.ctx, ast.Load):
+            out.add(n.value.id)
+        elif isinstance(n, ast.Call) and isinstance(n.func, ast.Name) and n.func.id not in ("print", "isinstance", "str", "repr", "bool", "id", "type", "hash", "getattr", "cast"):
+            pass
+        elif isinstance(n, ast.BinOp) and isinstance(n.op, (ast.Add, ast.Sub, ast.Mult, ast.FloorDiv, ast.Mod)):
+            for side in (n.left, n.right):
+                if isinstance(side, ast.Name):
+                    out.add(side.id)
+        elif isinstance(n, ast.Compare) and any(isinstance(o, (ast.Lt, ast.LtE, ast.Gt, ast.GtE)) for o in n.ops):
+            for side in [n.left] + list(n.comparators):
+                if isinstance(side, ast.Name):
+                    out.add(side.id)
+    return out
+
+
+def _learn_nonnull(env: Dict[str, Tuple], names) -> None:
+    for n in names:
+        if n not in env:
+            env[n] = ("nonnull",)
 
 
 def _kill(env: Dict[str, Tuple], name: str) -> None:
@@ -90,6 +122,18 @@ def simplify_events(events: List[tuple]) -> Optional[List[tuple]]:
             d = _decide(ev[1], env)
             if d is not None and d != ev[2]:
                 return None
+            # what the outcome tells us: `x` true / `x is not None` -> x is not None; a dereference that did not raise -> not None
+            c = ev[1]
+            if isinstance(c, ast.Name) and ev[2]:
+                _learn_nonnull(env, [c.id])
+            if isinstance(c, ast.Compare) and len(c.ops) == 1 and isinstance(c.left, ast.Name) and isinstance(c.comparators[0], ast.Constant) \
+                    and c.comparators[0].value is None:
+                isnone = ev[2] if isinstance(c.ops[0], (ast.Is, ast.Eq)) else (not ev[2] if isinstance(c.ops[0], (ast.IsNot, ast.NotEq)) else None)
+                if isnone is False:
+                    _learn_nonnull(env, [c.left.id])
+                elif isnone is True and c.left.id not in env:
+                    env[c.left.id] = ("none",)
+            _learn_nonnull(env, _dereferenced(c))
             out.append(ev)
             continue
         if kind == "loop":
@@ -172,6 +216,9 @@ def simplify_events(events: List[tuple]) -> Optional[List[tuple]]:
                         continue
             if isinstance(t, ast.Name):
                 val = _classify(v, env)
+                _learn_nonnull(env, _dereferenced(v) - {t.id})
+                if val is None and isinstance(v, (ast.BinOp, ast.JoinedStr, ast.Compare)) :
+                    val = ("nonnull",)  # arithmetic / comparison / f-string results are never None
                 _kill(env, t.id)
                 if val is not None:
                     env[t.id] = val
@@ -183,6 +230,8 @@ def simplify_events(events: List[tuple]) -> Optional[List[tuple]]:
         for n in assigned_names(s):
             _kill(env, n)
             defs_at.pop(n, None)
+        if not isinstance(s, (ast.FunctionDef, ast.AsyncFunctionDef, ast.ClassDef)):
+            _learn_nonnull(env, _dereferenced(s) - assigned_names(s))
         out.append(ev)
     return out if changed else events
 
